@@ -18,16 +18,20 @@ from .. import tlc, tracecheck
 FINISH = dict(level="model_checking",
               rule="a case = one TLC-generated behaviour (a program of joins / Foreach and calls; a call history of queue / disk / list stages; one row of a decision table) replayed on real coba objects in one mode, compared after every step; distinct = distinct (part, configuration, behaviour, mode)")
 
-JOIN_INVARIANTS = ["Shape", "Flattened", "Associative", "GroupingFree", "Lazy", "ExactlyOnce", "InOrder"]
+JOIN_INVARIANTS = ["Shape", "Flattened", "Associative", "GroupingFree", "Lazy", "ExactlyOnce", "FailStop", "InOrder"]
 
 
 # ------------------------------------------------------------------ recording stages (the atoms of PipesAlgebra.tla)
+class Boom(Exception):
+    pass
+
+
 class World:
     """fresh stages for one program: name -> object, call counters, sink contents"""
     def __init__(self):
         from coba.primitives import Filter, Sink, Environment, EnvironmentFilter
         W = self
-        self.calls = collections.Counter(); self.written = {"K1": [], "K2": []}
+        self.calls = collections.Counter(); self.written = {"K1": [], "K2": []}; self.boom = None
 
         def _list(v): return list(v) if not isinstance(v, list) else v
 
@@ -68,6 +72,12 @@ class World:
         class EF(EnvironmentFilter):                # default params {} and default str
             filter = _filter("EF")
 
+        class X1:                                   # the stage that fails: counts the call, then raises a fresh Boom
+            def __str__(self): return "X1"
+            def filter(self, v):
+                v = _list(v); W.calls["X1"] += 1
+                W.boom = Boom("X1 call %d" % W.calls["X1"]); raise W.boom
+
         def _write(name):
             def write(self, v):
                 v = _list(v)
@@ -87,7 +97,7 @@ class World:
             def __str__(self): return "K2"
             write = _write("K2")
 
-        self.atoms = {"S1": S1(), "E1": E1(), "F1": F1(), "F2": F2(), "N1": N1(), "EF": EF(), "K1": K1(), "K2": K2(), "O1": object()}
+        self.atoms = {"S1": S1(), "E1": E1(), "F1": F1(), "F2": F2(), "N1": N1(), "EF": EF(), "X1": X1(), "K1": K1(), "K2": K2(), "O1": object()}
         self.objs = []           # what the program built (None where the join raised)
 
     def ref(self, r): return self.atoms[r["a"]] if r["o"] == 0 else self.objs[r["o"] - 1]
@@ -100,8 +110,8 @@ def norm(v):
     return [norm(x) for x in v]
 
 
-ATOM_KIND = {"S1": "Source", "E1": "Source", "F1": "Filter", "F2": "Filter", "N1": "Filter", "EF": "Filter", "K1": "Sink", "K2": "Sink", "O1": "None"}
-ATOM_NAMES = {"S1", "E1", "F1", "F2", "N1", "EF", "K1", "K2", "x"}
+ATOM_KIND = {"S1": "Source", "E1": "Source", "F1": "Filter", "F2": "Filter", "N1": "Filter", "EF": "Filter", "X1": "Filter", "K1": "Sink", "K2": "Sink", "O1": "None"}
+ATOM_NAMES = {"S1", "E1", "F1", "F2", "N1", "EF", "X1", "K1", "K2", "x"}
 
 
 def mask(v):
@@ -209,14 +219,18 @@ def replay_join(ctx, cfgname, j, idx):
         elif op == "each":
             W.objs.append(Foreach(args[0]))
         else:
-            o = args[0]
+            o = args[0]; W.boom = None; raised = None
             try:
                 if op == "read": out = norm(o.read())
                 elif op == "filter": out = norm(o.filter([["x", 1], ["x", 2]]))
                 elif op == "write": out = o.write([["x", 1], ["x", 2]]); out = [] if out is None else ["returned", norm(out)]
                 else: out = o.run(); out = [] if out is None else ["returned", norm(out)]
             except Exception as e:
-                ctx.violation("call:%s:raises" % op, "%s raised %s: %s" % (where, type(e).__name__, e), rep); return False
+                raised = e; out = []
+            if raised is not None and not (raised is W.boom and not st["ok"]):
+                ctx.violation("call:%s:raises" % op, "%s raised %s: %s%s" % (where, type(raised).__name__, raised, "" if st["ok"] else " instead of the exception of the failing stage"), rep); return False
+            if raised is None and not st["ok"]:
+                ctx.violation("call:%s:exception-lost" % op, "%s: a stage raised but the call returned %r" % (where, out), rep); return False
             anyamb = anyamb or st["amb"]
             f = mask if st["amb"] else (lambda z: z)
             if f(out) != f(st["out"]):
@@ -357,7 +371,7 @@ def replay_disk(ctx, j, idx):
                     ctx.violation("disk:%s:gzip" % op, "%s: the file is not a gzip stream (%s: %s)" % (where, type(e).__name__, e), rep); return False
                 if data.decode("utf-8") != _text(st["bytes"]):
                     sig = "disk:write:lines-lost" if (op == "write" and len(data) < len(st["bytes"])) else "disk:%s:content" % op
-                    if sig == "disk:write:lines-lost" and j["mode"] == "w" and batch: sig = "disk:write:w-batch:lines-lost"
+                    if sig == "disk:write:lines-lost" and j["mode"] == "w" and batch and depth == 0 and len(st["arg"]["lines"]) >= batch: sig = "disk:write:w-batch:lines-lost"
                     ctx.violation(sig, "%s: the file holds %r, expected %r" % (where, data.decode("utf-8"), _text(st["bytes"])), rep); return False
         return True
     finally:
@@ -495,6 +509,7 @@ def join_configs(ctx):
     add("typing", "AtomsTyping", 4, 4 if q else 5, 4, 3, True)
     add("variety", "AtomsVariety", 4, 4, 4, 1, False)
     add("any-order", "AtomsSmall", 3, 4, 3, 2, True, "any", 2 if q else 3)
+    add("faults", "AtomsFaults", 3 if q else 4, 4 if q else 5, 3 if q else 4, 2 if q else 3, True)
     if not q:
         add("typing-deep", "AtomsTyping", 4, 6, 4, 4, True)
         add("variety-nested", "AtomsVariety", 3, 4, 3, 2, True)
@@ -503,7 +518,7 @@ def join_configs(ctx):
 
 JOIN_GUARDS = [("ends_only", "join looks at its first and last argument only", {"Shape", "GroupingFree"}),
                ("noflatten", "a composite argument is kept as one stage", {"Flattened", "Associative"}),
-               ("eager", "join reads its source when it is built", {"Lazy", "ExactlyOnce"}),
+               ("eager", "join reads its source when it is built", {"Lazy", "ExactlyOnce", "FailStop"}),
                ("reversed", "a composite applies its filters last to first", {"InOrder"})]
 PART_GUARDS = [("queue", "nb_poison", "a non-blocking reader stops at the poison value", {"QPoisonRule"}),
                ("queue", "drop_on_fault", "a failing get loses the item at the head of the queue", {"QFifo"}),
@@ -519,7 +534,7 @@ PART_ACTIONS = {"queue": ["QPut", "QOpen", "QNext", "QBreak", "QFinish"],
 def run(ctx):
     rng = random.Random(ctx.seed)
     JC = join_configs(ctx)
-    qn = {"queue": ctx.pick(4, 6), "disk": ctx.pick(3, 4), "list": ctx.pick(3, 4), "table": 1}
+    qn = {"queue": ctx.pick(4, 5), "disk": ctx.pick(3, 4), "list": ctx.pick(3, 4), "table": 1}
 
     def part_sub(part, extra=None):
         d = {'Part = "join"': 'Part = "%s"' % part, "QN = 4": "QN = %d" % qn[part], 'Size = "quick"': 'Size = "%s"' % ctx.tier}
@@ -539,6 +554,7 @@ def run(ctx):
     with ThreadPoolExecutor(max_workers=5) as ex:
         results = dict(ex.map(tlc_job, jobs))
     ctx.extra["tlc_phase_s"] = round(_t.time() - t0, 1)
+    ctx.extra["action_coverage"] = {name: {a: c[1] for a, c in r.coverage.items() if c[1] and a[0].isupper() and a != "Init"} for name, r in results.items() if r.coverage and not name.startswith("guard-")}
 
     for name, what, expect in [("join-" + g, w, e) for g, w, e in JOIN_GUARDS] + [("%s-%s" % (p, g), w, e) for p, g, w, e in PART_GUARDS]:
         r = results["guard-" + name]
